@@ -239,11 +239,12 @@ theorem owner_kind {ds} {h : Heap} (s : Struct ds h) {x p : Id} {n : Node} (e : 
 
 /-- exactness of the stored references of a layer set -/
 theorem exact_layerSet {ds} {h : Heap} (s : Struct ds h) {x : Id} {n : Node} (e : h.get x = some n)
-    (k : n.kind = .layerSet) : n.pFont = ancOf h .font x ∧ n.pFont ≠ none := by
-  have hf := ((s.full x n e).2.2 k)
+    (k : n.kind = .layerSet) : n.pFont = ancOf h .font x := by
   cases ef : n.pFont with
-  | none => exact absurd ef hf
-  | some f => exact ⟨(((s.refs x n f e).2.2.2.1) ef).symm, by simp⟩
+  | none =>
+    have ho : h.ownerOf x = none := by rw [ownerOf_eq e]; simp [owner, k, ef]
+    rw [ancOf_none s ho]
+  | some f => exact (((s.refs x n f e).2.2.2.1) ef).symm
 
 theorem exact_layer {ds} {h : Heap} (s : Struct ds h) {x : Id} {n : Node} (e : h.get x = some n)
     (k : n.kind = .layer) :
@@ -260,7 +261,7 @@ theorem exact_layer {ds} {h : Heap} (s : Struct ds h) {x : Id} {n : Node} (e : h
     refine ⟨(ancOf_eq s ho kp).symm, ?_⟩
     rw [ancOf_ne s ho (by rw [kp]; simp)]
     simp only [Option.bind_some, Heap.storedFont, ep]
-    exact (exact_layerSet s ep (hk k)).1
+    exact exact_layerSet s ep (hk k)
 
 theorem exact_glyph {ds} {h : Heap} (s : Struct ds h) {x : Id} {n : Node} (e : h.get x = some n)
     (k : n.kind = .glyph) :
@@ -544,7 +545,7 @@ theorem font_exact {ds} {h : Heap} (s : Struct ds h) {x : Id} {n : Node} (e : h.
   cases hl : n.kind.isLeaf with
   | false =>
     cases hk : n.kind <;> simp [hk, Kind.isLeaf] at hl k
-    · have := (exact_layerSet s e hk).1
+    · have := exact_layerSet s e hk
       simp only [fontOf, e, hk]; exact this
     · have := (exact_layer s e hk).2
       simp only [fontOf, e, hk]; exact this
@@ -579,6 +580,668 @@ theorem disp_exact {ds} {h : Heap} (s : Struct ds h) (x : Id) : dispOf h x = cen
     by_cases k : n.kind = .font
     · rw [dispOf_font e k]; simp [centreOf, kindOf_eq e, k]
     · rw [(font_exact s e k).2]; simp [centreOf, kindOf_eq e, k]
+
+
+/-! ### The invariant looks at the nodes through `get` only -/
+
+section congr
+variable {h h' : Heap} (hg : ∀ i, h'.get i = h.get i)
+include hg
+
+theorem kidsOf_congr (i : Id) : h'.kidsOf i = h.kidsOf i := by simp [Heap.kidsOf, hg i]
+theorem ownerOf_congr (i : Id) : h'.ownerOf i = h.ownerOf i := by simp [Heap.ownerOf, hg i]
+theorem kindOf_congr (i : Id) : h'.kindOf i = h.kindOf i := by simp [Heap.kindOf, hg i]
+theorem ancOf_congr (k : Kind) (i : Id) : ancOf h' k i = ancOf h k i :=
+  anc_congr (ownerOf_congr hg) (kindOf_congr hg) k 4 i
+theorem alive_congr (i : Id) : h'.alive i ↔ h.alive i := by simp [Heap.alive, hg i]
+
+theorem struct_congr {ds} (s : Struct ds h) : Struct ds h' where
+  kKids p np x e hx := by rw [hg p] at e; simpa [hg x] using s.kKids p np x e hx
+  kidsNodup p np e := by rw [hg p] at e; exact s.kidsNodup p np e
+  shape x n e := by rw [hg x] at e; exact s.shape x n e
+  up x n p e eo := by rw [hg x] at e; rw [kidsOf_congr hg]; exact s.up x n p e eo
+  down p x ha hd hx := by
+    rw [alive_congr hg] at ha; rw [kidsOf_congr hg] at hx; rw [ownerOf_congr hg]; exact s.down p x ha hd hx
+  loose x n e := by rw [hg x] at e; exact s.loose x n e
+  refs x n a e := by rw [hg x] at e; simp only [ancOf_congr hg]; exact s.refs x n a e
+  full x n e := by rw [hg x] at e; simp only [ancOf_congr hg]; exact s.full x n e
+
+end congr
+
+theorem struct_mono {ds ds'} {h : Heap} (s : Struct ds h) (sub : ∀ d, d ∈ ds → d ∈ ds') : Struct ds' h :=
+  { s with down := fun p x ha hd hx => s.down p x ha (fun hm => hd (sub p hm)) hx }
+
+/-- a container stops dying once everything it lists points to it (or it is not alive) -/
+theorem struct_undying {ds} {h : Heap} {d : Id} (s : Struct (d :: ds) h)
+    (hd : h.alive d → ∀ x ∈ h.kidsOf d, h.ownerOf x = some d) : Struct ds h := by
+  refine { s with down := ?_ }
+  intro p x ha hp hx
+  by_cases e : p = d
+  · subst e
+    exact hd ha x hx
+  · exact s.down p x ha (by simp [e, hp]) hx
+
+
+/-! ### Changing a child list only -/
+
+theorem get_addKid (h : Heap) (p x i : Id) :
+    (h.addKid p x).get i = if p = i then (h.get p).map (fun n => { n with kids := n.kids ++ [x] }) else h.get i := by
+  simp [Heap.addKid, get_upd]
+
+theorem get_unlist (h : Heap) (p x i : Id) :
+    (h.unlist p x).get i = if p = i then (h.get p).map (fun n => { n with kids := n.kids.filter (· ≠ x) }) else h.get i := by
+  simp [Heap.unlist, get_upd]
+
+/-- a change of one node's child list leaves owners and kinds alone -/
+theorem kidsChange_owner {h h' : Heap} {p : Id} {np : Node} {f : List Id → List Id} (ep : h.get p = some np)
+    (hg : ∀ i, h'.get i = if p = i then (h.get p).map (fun n => { n with kids := f n.kids }) else h.get i) :
+    (∀ i, h'.ownerOf i = h.ownerOf i) ∧ (∀ i, h'.kindOf i = h.kindOf i) ∧
+    (∀ k i, ancOf h' k i = ancOf h k i) ∧ (∀ i, h'.alive i ↔ h.alive i) ∧
+    (∀ i, h'.kidsOf i = if p = i then f np.kids else h.kidsOf i) ∧
+    (∀ i n', h'.get i = some n' → ∃ n, h.get i = some n ∧ n' = { n with kids := n'.kids }) := by
+  have ho : ∀ i, h'.ownerOf i = h.ownerOf i := fun i => by
+    simp only [Heap.ownerOf, hg i]
+    by_cases e : p = i
+    · subst e; simp [ep, owner]
+    · simp [e]
+  have hk : ∀ i, h'.kindOf i = h.kindOf i := fun i => by
+    simp only [Heap.kindOf, hg i]
+    by_cases e : p = i
+    · subst e; simp [ep]
+    · simp [e]
+  refine ⟨ho, hk, fun k i => anc_congr ho hk k 4 i, fun i => ?_, fun i => ?_, fun i n' e => ?_⟩
+  · simp only [Heap.alive, hg i]
+    by_cases e : p = i
+    · subst e; simp [ep, owner]
+    · simp [e]
+  · simp only [Heap.kidsOf, hg i]
+    by_cases e : p = i
+    · subst e; simp [ep]
+    · simp [e]
+  · rw [hg i] at e
+    by_cases e2 : p = i
+    · subst e2
+      simp only [if_true, ep, Option.map_some, Option.some.injEq] at e
+      exact ⟨np, ep, by subst e; rfl⟩
+    · simp only [e2, if_false] at e
+      exact ⟨n', e, rfl⟩
+
+theorem struct_kidsChange {ds} {h h' : Heap} (s : Struct ds h) {p : Id} {np : Node} {f : List Id → List Id}
+    (ep : h.get p = some np)
+    (hg : ∀ i, h'.get i = if p = i then (h.get p).map (fun n => { n with kids := f n.kids }) else h.get i)
+    (kk : ∀ y ∈ f np.kids, ∃ ny, h.get y = some ny ∧ allowed np.kind ny.kind = true)
+    (nd : (f np.kids).Nodup)
+    (hup : ∀ y, h.ownerOf y = some p → y ∈ f np.kids)
+    (hdn : p ∈ ds ∨ ∀ y ∈ f np.kids, y ∈ np.kids) : Struct ds h' := by
+  obtain ⟨ho, hk, ha', hal, hkids, hnode⟩ := kidsChange_owner ep hg
+  have exists' : ∀ y ny, h.get y = some ny → ∃ ny', h'.get y = some ny' ∧ ny'.kind = ny.kind := fun y ny ey => by
+    have := hk y
+    rw [kindOf_eq ey] at this
+    obtain ⟨ny', e1, e2⟩ := kindOf_some this
+    exact ⟨ny', e1, e2⟩
+  have kidsAt : ∀ q nq, h'.get q = some nq → nq.kids = if p = q then f np.kids else h.kidsOf q := fun q nq e => by
+    rw [← hkids q, kidsOf_eq e]
+  refine ⟨?_, ?_, ?_, ?_, ?_, ?_, ?_, ?_⟩
+  · intro q nq y e hy
+    obtain ⟨n0, e0, en⟩ := hnode q nq e
+    rw [kidsAt q nq e] at hy
+    have : ∃ ny, h.get y = some ny ∧ allowed nq.kind ny.kind = true := by
+      by_cases eq : p = q
+      · subst eq
+        rw [ep] at e0; cases e0
+        simp only [if_true] at hy
+        rw [en]; exact kk y hy
+      · simp only [eq, if_false] at hy
+        rw [kidsOf_eq e0] at hy
+        rw [en]; exact s.kKids q n0 y e0 hy
+    obtain ⟨ny, ey, hay⟩ := this
+    obtain ⟨ny', ey', ek⟩ := exists' y ny ey
+    exact ⟨ny', ey', by rw [ek]; exact hay⟩
+  · intro q nq e
+    obtain ⟨n0, e0, en⟩ := hnode q nq e
+    rw [kidsAt q nq e]
+    by_cases eq : p = q
+    · simp [eq, nd]
+    · simp only [eq, if_false]; rw [kidsOf_eq e0]; exact s.kidsNodup q n0 e0
+  · intro y n e
+    obtain ⟨n0, e0, en⟩ := hnode y n e
+    rw [en]; exact s.shape y n0 e0
+  · intro y n q e eo
+    have hoy : h.ownerOf y = some q := by rw [← ho, ownerOf_eq e]; exact eo
+    obtain ⟨n0, e0, eo0⟩ := ownerOf_some hoy
+    have := s.up y n0 q e0 eo0
+    rw [hkids]; by_cases eq : p = q
+    · subst eq; simp [hup y hoy]
+    · simp [eq, this]
+  · intro q y hq hqd hy
+    rw [hal] at hq
+    rw [hkids] at hy
+    rw [ho]
+    by_cases eq : p = q
+    · subst eq
+      simp only [if_true] at hy
+      rcases hdn with hdn | hdn
+      · exact absurd hdn hqd
+      · exact s.down p y hq hqd (by rw [kidsOf_eq ep]; exact hdn y hy)
+    · simp only [eq, if_false] at hy
+      exact s.down q y hq hqd hy
+  · intro y n e
+    obtain ⟨n0, e0, en⟩ := hnode y n e
+    rw [en]; exact s.loose y n0 e0
+  · intro y n a e
+    obtain ⟨n0, e0, en⟩ := hnode y n e
+    simp only [ha']; rw [en]; exact s.refs y n0 a e0
+  · intro y n e
+    obtain ⟨n0, e0, en⟩ := hnode y n e
+    simp only [ha']; rw [en]; exact s.full y n0 e0
+
+theorem struct_addKid {ds} {h : Heap} (s : Struct ds h) {p x : Id} {np nx : Node}
+    (ep : h.get p = some np) (ex : h.get x = some nx) (ha : allowed np.kind nx.kind = true)
+    (hn : x ∉ np.kids) (hd : p ∈ ds) : Struct ds (h.addKid p x) := by
+  refine struct_kidsChange s (f := fun ks => ks ++ [x]) ep (get_addKid h p x) ?_ ?_ ?_ (Or.inl hd)
+  · intro y hy
+    simp only [List.mem_append, List.mem_singleton] at hy
+    rcases hy with hy | hy
+    · exact s.kKids p np y ep hy
+    · subst hy; exact ⟨nx, ex, ha⟩
+  · have := s.kidsNodup p np ep
+    simp only [List.nodup_append, this, List.nodup_cons, List.not_mem_nil, not_false_eq_true, List.nodup_nil,
+      and_self, List.mem_singleton, true_and]
+    intro a ha b hb; subst hb; intro e; subst e; exact hn ha
+  · intro y hy
+    obtain ⟨ny, ey, eo⟩ := ownerOf_some hy
+    have := s.up y ny p ey eo
+    rw [kidsOf_eq ep] at this
+    simp [this]
+
+theorem struct_unlist {ds} {h : Heap} (s : Struct ds h) {p x : Id} (hx : h.ownerOf x ≠ some p) :
+    Struct ds (h.unlist p x) := by
+  cases ep : h.get p with
+  | none => exact struct_congr (fun i => by rw [get_unlist]; by_cases e : p = i <;> simp [e, ep]; subst e; simp [ep]) s
+  | some np =>
+    refine struct_kidsChange s (f := fun ks => ks.filter (· ≠ x)) ep (get_unlist h p x) ?_ ?_ ?_ (Or.inr ?_)
+    · intro y hy
+      exact s.kKids p np y ep (List.mem_filter.mp hy).1
+    · exact (s.kidsNodup p np ep).filter _
+    · intro y hy
+      obtain ⟨ny, ey, eo⟩ := ownerOf_some hy
+      have := s.up y ny p ey eo
+      rw [kidsOf_eq ep] at this
+      refine List.mem_filter.mpr ⟨this, ?_⟩
+      simp only [ne_eq, decide_not, Bool.not_eq_eq_eq_not, Bool.not_true, decide_eq_false_iff_not]
+      intro e; subst e; exact hx hy
+    · intro y hy; exact (List.mem_filter.mp hy).1
+
+
+/-! ### Replacing the references of one node that owns nothing -/
+
+/-- what is above a node whose owner pointer is `o` -/
+def ancVia (h : Heap) (k : Kind) (o : Option Id) : Option Id :=
+  match o with
+  | none => none
+  | some p => if h.kindOf p = some k then some p else ancOf h k p
+
+/-- the conditions on the new content `n'` of node `z` -/
+structure NodeOK (ds : List Id) (h : Heap) (z : Id) (n' : Node) : Prop where
+  ownerOK : ∀ p, owner n' = some p → p ≠ z ∧ z ∈ h.kidsOf p
+  shape : (n'.kind.isLeaf = false → n'.pGlyph = none) ∧
+    (n'.kind = .font → n'.pLayer = none ∧ n'.pLayerSet = none ∧ n'.pFont = none ∧ n'.disp = none) ∧
+    (n'.kind = .layerSet → n'.pLayer = none ∧ n'.pLayerSet = none) ∧
+    (n'.kind = .layer → n'.pLayer = none ∧ n'.pFont = none)
+  loose : owner n' = none →
+    n'.pGlyph = none ∧ n'.pLayer = none ∧ n'.pLayerSet = none ∧ n'.pFont = none ∧ n'.disp = none
+  refs : ∀ a,
+    (n'.pGlyph = some a → ancVia h .glyph (owner n') = some a) ∧
+    (n'.pLayer = some a → ancVia h .layer (owner n') = some a) ∧
+    (n'.pLayerSet = some a → ancVia h .layerSet (owner n') = some a) ∧
+    (n'.pFont = some a → ancVia h .font (owner n') = some a) ∧
+    (n'.disp = some a → ancVia h .font (owner n') = some a)
+  full : (n'.kind = .glyph → n'.pLayer ≠ none → n'.pLayerSet ≠ none ∧ n'.pFont ≠ none) ∧
+    (n'.kind = .layer → n'.pLayerSet ≠ none → ancVia h .font (owner n') ≠ none)
+  downUp : ∀ p, z ∈ h.kidsOf p → p ≠ z → h.alive p → p ∉ ds → owner n' = some p
+
+theorem struct_replace {ds} {h h' : Heap} (s : Struct ds h) {z : Id} {n n' : Node}
+    (ez : h.get z = some n) (hg : ∀ i, h'.get i = if z = i then some n' else h.get i)
+    (hkind : n'.kind = n.kind) (hkids : n'.kids = n.kids)
+    (hz : ∀ i, h.ownerOf i ≠ some z)
+    (ok : NodeOK ds h z n')
+    (dz : z ∈ ds ∨ n.kids = [] ∨ (n'.kind ≠ .font ∧ owner n' = none)) : Struct ds h' := by
+  have hne : ∀ i, i ≠ z → h'.get i = h.get i := fun i hi => by rw [hg]; simp [Ne.symm hi]
+  have hzz : h'.get z = some n' := by rw [hg]; simp
+  have hk : ∀ i, h'.kindOf i = h.kindOf i := fun i => by
+    by_cases e : i = z
+    · subst e; simp [Heap.kindOf, hzz, ez, hkind]
+    · simp [Heap.kindOf, hne i e]
+  have hkidsOf : ∀ i, h'.kidsOf i = h.kidsOf i := fun i => by
+    by_cases e : i = z
+    · subst e; simp [Heap.kidsOf, hzz, ez, hkids]
+    · simp [Heap.kidsOf, hne i e]
+  have hoo : ∀ i, i ≠ z → h'.ownerOf i = h.ownerOf i := fun i hi => by simp [Heap.ownerOf, hne i hi]
+  have hoz : h'.ownerOf z = owner n' := by simp [Heap.ownerOf, hzz]
+  have hanc : ∀ k i, i ≠ z → ancOf h' k i = ancOf h k i := fun k i hi => anc_frame hne hz k 4 i hi
+  have hancz : ∀ k, ancOf h' k z = ancVia h k (owner n') := fun k => by
+    unfold ancOf; rw [anc_succ, hoz]
+    cases eo : owner n' with
+    | none => rfl
+    | some p =>
+      obtain ⟨hpz, hzp⟩ := ok.ownerOK p eo
+      obtain ⟨np, ep, hm⟩ := mem_kidsOf hzp
+      obtain ⟨nz, ez', ha⟩ := s.kKids p np z ep hm
+      have hr : rankOf h p ≤ 3 := by simp only [rankOf, kindOf_eq ep]; exact (allowed_rank ha).2
+      simp only [ancVia, hk p]
+      rw [anc_frame hne hz k 3 p hpz, ← anc_fuel s k 3 p hr 4 (by omega)]
+      rfl
+  have halive : ∀ p, p ≠ z → (h'.alive p ↔ h.alive p) := fun p hp => by simp [Heap.alive, hne p hp]
+  refine ⟨?_, ?_, ?_, ?_, ?_, ?_, ?_, ?_⟩
+  · intro q nq y e hy
+    have : y ∈ h.kidsOf q := by rw [← hkidsOf, kidsOf_eq e]; exact hy
+    obtain ⟨nq0, eq0, hm⟩ := mem_kidsOf this
+    obtain ⟨ny, ey, hay⟩ := s.kKids q nq0 y eq0 hm
+    have k1 : nq.kind = nq0.kind := by
+      have := hk q; rw [kindOf_eq e, kindOf_eq eq0] at this; simpa using this
+    have := hk y
+    rw [kindOf_eq ey] at this
+    obtain ⟨ny', ey', eky⟩ := kindOf_some this
+    exact ⟨ny', ey', by rw [k1, eky]; exact hay⟩
+  · intro q nq e
+    by_cases eq : q = z
+    · subst eq; rw [hzz] at e; cases e; rw [hkids]; exact s.kidsNodup q n ez
+    · rw [hne q eq] at e; exact s.kidsNodup q nq e
+  · intro y ny e
+    by_cases eq : y = z
+    · subst eq; rw [hzz] at e; cases e; exact ok.shape
+    · rw [hne y eq] at e; exact s.shape y ny e
+  · intro y ny q e eo
+    rw [hkidsOf]
+    by_cases eq : y = z
+    · subst eq; rw [hzz] at e; cases e; exact (ok.ownerOK q eo).2
+    · rw [hne y eq] at e; exact s.up y ny q e eo
+  · intro q y hq hqd hy
+    rw [hkidsOf] at hy
+    by_cases eq : q = z
+    · subst eq
+      exfalso
+      rcases dz with dz | dz | dz
+      · exact hqd dz
+      · rw [kidsOf_eq ez, dz] at hy; simp at hy
+      · obtain ⟨nq, enq, hal⟩ := hq
+        rw [hzz] at enq; cases enq
+        rcases hal with hal | hal
+        · exact dz.1 hal
+        · exact hal dz.2
+    · have hq0 := (halive q eq).mp hq
+      by_cases ey : y = z
+      · subst ey; rw [hoz]; exact ok.downUp q hy eq hq0 hqd
+      · rw [hoo y ey]; exact s.down q y hq0 hqd hy
+  · intro y ny e eo
+    by_cases eq : y = z
+    · subst eq; rw [hzz] at e; cases e; exact ok.loose eo
+    · rw [hne y eq] at e; exact s.loose y ny e eo
+  · intro y ny a e
+    by_cases eq : y = z
+    · subst eq; rw [hzz] at e; cases e; simp only [hancz]; exact ok.refs a
+    · rw [hne y eq] at e; simp only [hanc _ y eq]; exact s.refs y ny a e
+  · intro y ny e
+    by_cases eq : y = z
+    · subst eq; rw [hzz] at e; cases e; simp only [hancz]; exact ok.full
+    · rw [hne y eq] at e; simp only [hanc _ y eq]; exact s.full y ny e
+
+
+/-- a node without any reference and without children -/
+def blank (k : Kind) : Node := { kind := k }
+
+theorem nobody_owned_by_missing {ds} {h : Heap} (s : Struct ds h) {z : Id} (ez : h.get z = none) :
+    ∀ i, h.ownerOf i ≠ some z := by
+  intro i hi
+  obtain ⟨ni, ei, eo⟩ := ownerOf_some hi
+  obtain ⟨nz, e, _⟩ := mem_kidsOf (s.up i ni z ei eo)
+  rw [ez] at e; cases e
+
+theorem struct_alloc {ds} {h : Heap} (s : Struct ds h) (k : Kind) : Struct ds (h.alloc (blank k)) := by
+  have ez : h.get h.next = none := get_next h
+  have hg := get_alloc h (blank k)
+  have hne : ∀ i, i ≠ h.next → (h.alloc (blank k)).get i = h.get i := fun i hi => by rw [hg]; simp [hi]
+  have hzz : (h.alloc (blank k)).get h.next = some (blank k) := by rw [hg]; simp
+  have hz := nobody_owned_by_missing s ez
+  have hanc : ∀ kk i, i ≠ h.next → ancOf (h.alloc (blank k)) kk i = ancOf h kk i :=
+    fun kk i hi => anc_frame hne hz kk 4 i hi
+  have old : ∀ i n, h.get i = some n → i ≠ h.next := fun i n e hi => by subst hi; rw [ez] at e; cases e
+  have hkidsOf : ∀ i, (h.alloc (blank k)).kidsOf i = h.kidsOf i := fun i => by
+    by_cases e : i = h.next
+    · subst e; simp only [Heap.kidsOf, hzz, ez]; rfl
+    · simp [Heap.kidsOf, hne i e]
+  refine ⟨?_, ?_, ?_, ?_, ?_, ?_, ?_, ?_⟩
+  · intro q nq y e hy
+    by_cases eq : q = h.next
+    · subst eq; rw [hzz] at e; cases e; simp [blank] at hy
+    · rw [hne q eq] at e
+      obtain ⟨ny, ey, hay⟩ := s.kKids q nq y e hy
+      exact ⟨ny, by rw [hne y (old y ny ey)]; exact ey, hay⟩
+  · intro q nq e
+    by_cases eq : q = h.next
+    · subst eq; rw [hzz] at e; cases e; simp [blank]
+    · rw [hne q eq] at e; exact s.kidsNodup q nq e
+  · intro y ny e
+    by_cases eq : y = h.next
+    · subst eq; rw [hzz] at e; cases e; simp [blank]
+    · rw [hne y eq] at e; exact s.shape y ny e
+  · intro y ny q e eo
+    rw [hkidsOf]
+    by_cases eq : y = h.next
+    · subst eq; rw [hzz] at e; cases e
+      exfalso; cases k <;> simp [blank, owner] at eo
+    · rw [hne y eq] at e; exact s.up y ny q e eo
+  · intro q y hq hqd hy
+    rw [hkidsOf] at hy
+    obtain ⟨nq, enq, hm⟩ := mem_kidsOf hy
+    have hq' : q ≠ h.next := old q nq enq
+    obtain ⟨ny, ey, _⟩ := s.kKids q nq y enq hm
+    have hy' : y ≠ h.next := old y ny ey
+    have : (h.alloc (blank k)).ownerOf y = h.ownerOf y := by simp [Heap.ownerOf, hne y hy']
+    rw [this]
+    exact s.down q y (by simpa [Heap.alive, hne q hq'] using hq) hqd hy
+  · intro y ny e eo
+    by_cases eq : y = h.next
+    · subst eq; rw [hzz] at e; cases e; simp [blank]
+    · rw [hne y eq] at e; exact s.loose y ny e eo
+  · intro y ny a e
+    by_cases eq : y = h.next
+    · subst eq; rw [hzz] at e; cases e; simp [blank]
+    · rw [hne y eq] at e; simp only [hanc _ y eq]; exact s.refs y ny a e
+  · intro y ny e
+    by_cases eq : y = h.next
+    · subst eq; rw [hzz] at e; cases e; simp [blank]
+    · rw [hne y eq] at e; simp only [hanc _ y eq]; exact s.full y ny e
+
+
+/-! ### Operations that leave the nodes alone -/
+
+@[simp] theorem get_addReg (h : Heap) (r : Reg) (i : Id) : (h.addReg r).get i = h.get i := by
+  unfold Heap.addReg; split <;> rfl
+
+theorem get_foldl_addReg (h : Heap) (rs : List Reg) (i : Id) :
+    (rs.foldl (fun h r => h.addReg r) h).get i = h.get i := by
+  induction rs generalizing h with
+  | nil => rfl
+  | cons r rs ih => simp [List.foldl_cons, ih]
+
+@[simp] theorem get_observe (h : Heap) (x o : Id) (names : List NName) (i : Id) : (observe h x o names).get i = h.get i := by
+  unfold observe
+  split
+  · rfl
+  · rename_i c _
+    have : ∀ (h : Heap), (names.foldl (fun h nm => h.addReg ⟨c, o, x, nm⟩) h).get i = h.get i := by
+      intro h
+      induction names generalizing h with
+      | nil => rfl
+      | cons nm ns ih => simp [List.foldl_cons, ih]
+    exact this h
+
+@[simp] theorem get_unobserve (h : Heap) (x o : Id) (names : List NName) (i : Id) : (unobserve h x o names).get i = h.get i := by
+  unfold unobserve; split <;> rfl
+
+@[simp] theorem get_setDirty (h : Heap) (x i : Id) : (h.setDirty x).get i = h.get i := by
+  unfold Heap.setDirty; split <;> rfl
+@[simp] theorem regs_setDirty (h : Heap) (x : Id) : (h.setDirty x).regs = h.regs := by
+  unfold Heap.setDirty; split <;> rfl
+@[simp] theorem get_setName (h : Heap) (x : Id) (s : String) (i : Id) : (h.setName x s).get i = h.get i := rfl
+@[simp] theorem regs_setName (h : Heap) (x : Id) (s : String) : (h.setName x s).regs = h.regs := rfl
+@[simp] theorem get_dropUnloaded (h : Heap) (l : Id) (s : String) (i : Id) : (h.dropUnloaded l s).get i = h.get i := rfl
+@[simp] theorem regs_dropUnloaded (h : Heap) (l : Id) (s : String) : (h.dropUnloaded l s).regs = h.regs := rfl
+
+/-- posting changes dirty flags only -/
+theorem post_nodes_regs (fuel : Nat) (h : Heap) (s : Id) :
+    (post fuel h s).1.nodes = h.nodes ∧ (post fuel h s).1.regs = h.regs := by
+  induction fuel generalizing h s with
+  | zero => exact ⟨rfl, rfl⟩
+  | succ fuel ih =>
+    unfold post
+    split
+    · rename_i c ks _ _
+      generalize (h.regs.filter _) = obs
+      suffices H : ∀ (acc : Heap × List Id), acc.1.nodes = h.nodes ∧ acc.1.regs = h.regs →
+          (obs.foldl (fun (acc : Heap × List Id) r =>
+            if h.kindOf r.observer = some .font ∧ ks = .layerSet ∧ ¬ acc.1.isDirty s then acc
+            else
+              let res := post fuel (acc.1.setDirty r.observer) r.observer
+              (res.1, acc.2 ++ res.2)) acc).1.nodes = h.nodes ∧
+          (obs.foldl (fun (acc : Heap × List Id) r =>
+            if h.kindOf r.observer = some .font ∧ ks = .layerSet ∧ ¬ acc.1.isDirty s then acc
+            else
+              let res := post fuel (acc.1.setDirty r.observer) r.observer
+              (res.1, acc.2 ++ res.2)) acc).1.regs = h.regs from H (h, [s]) ⟨rfl, rfl⟩
+      induction obs with
+      | nil => intro acc ha; exact ha
+      | cons r rs ihr =>
+        intro acc ha
+        rw [List.foldl_cons]
+        apply ihr
+        split
+        · exact ha
+        · have := ih (acc.1.setDirty r.observer) r.observer
+          refine ⟨?_, ?_⟩
+          · rw [this.1]
+            have : (acc.1.setDirty r.observer).nodes = acc.1.nodes := by unfold Heap.setDirty; split <;> rfl
+            rw [this, ha.1]
+          · rw [this.2, regs_setDirty, ha.2]
+    · exact ⟨rfl, rfl⟩
+
+@[simp] theorem get_post (fuel : Nat) (h : Heap) (s i : Id) : (post fuel h s).1.get i = h.get i := by
+  simp [Heap.get, (post_nodes_regs fuel h s).1]
+@[simp] theorem regs_post (fuel : Nat) (h : Heap) (s : Id) : (post fuel h s).1.regs = h.regs :=
+  (post_nodes_regs fuel h s).2
+@[simp] theorem get_mark (h : Heap) (x i : Id) : (mark h x).get i = h.get i := by simp [mark, markPost]
+@[simp] theorem regs_mark (h : Heap) (x : Id) : (mark h x).regs = h.regs := by simp [mark, markPost]
+
+
+/-! ### Soundness of registrations under heap changes -/
+
+/-- one registration is sound -/
+def RegOK (h : Heap) (r : Reg) : Prop :=
+  centreOf h r.observable = some r.centre ∧
+    ((r.name = .all ∧ r.observer = r.observable) ∨ (r.name ∈ namesFor h r.observer r.observable ∧ Link h r.observer r.observable))
+
+theorem wiredX_iff {ds} {h : Heap} : WiredX ds h ↔ Struct ds h ∧ ∀ r ∈ h.regs, RegOK h r :=
+  ⟨fun w => ⟨w.toStruct, w.regSound⟩, fun ⟨s, r⟩ => ⟨s, r⟩⟩
+
+theorem namesFor_nonempty {h : Heap} {o x : Id} {nm : NName} (e : nm ∈ namesFor h o x) :
+    ∃ ko kx, h.kindOf o = some ko ∧ h.kindOf x = some kx ∧ nm ∈ tableNames ko kx := by
+  unfold namesFor at e
+  split at e
+  · rename_i ko kx e1 e2; exact ⟨ko, kx, e1, e2, e⟩
+  · simp at e
+
+/-- a sound registration survives any change that keeps kinds, the owner of its observable and what is
+above its observable -/
+theorem regOK_transfer {h h' : Heap} {r : Reg}
+    (hk : ∀ i k, h.kindOf i = some k → h'.kindOf i = some k)
+    (ho : h'.ownerOf r.observable = h.ownerOf r.observable)
+    (ha : ancOf h' .font r.observable = ancOf h .font r.observable)
+    (ok : RegOK h r) : RegOK h' r := by
+  obtain ⟨c, rest⟩ := ok
+  have kx : h'.kindOf r.observable = h.kindOf r.observable ∨ h.kindOf r.observable = none := by
+    cases e : h.kindOf r.observable with
+    | none => right; rfl
+    | some k => left; exact hk _ _ e
+  refine ⟨?_, ?_⟩
+  · unfold centreOf at c ⊢
+    rcases kx with kx | kx
+    · rw [kx, ha]; exact c
+    · -- the observable does not exist: it has no centre
+      exfalso
+      simp only [kx] at c
+      have : h.ownerOf r.observable = none := by
+        unfold Heap.kindOf at kx; unfold Heap.ownerOf
+        cases e : h.get r.observable <;> simp [e] at kx ⊢
+      simp [ancOf, anc_owner_none this] at c
+  · rcases rest with rest | ⟨hn, hl⟩
+    · exact Or.inl rest
+    · right
+      obtain ⟨ko, kx', e1, e2, e3⟩ := namesFor_nonempty hn
+      refine ⟨?_, ?_⟩
+      · unfold namesFor; rw [hk _ _ e1, hk _ _ e2]; exact e3
+      · rcases hl with hl | ⟨hl1, hl2⟩
+        · left; rw [ho]; exact hl
+        · right; exact ⟨hk _ _ hl1, by rw [ha]; exact hl2⟩
+
+theorem regOK_exists {h : Heap} {r : Reg} (ok : RegOK h r) : ∃ n, h.get r.observable = some n := by
+  cases e : h.get r.observable with
+  | some n => exact ⟨n, rfl⟩
+  | none =>
+    exfalso
+    have c := ok.1
+    have : h.ownerOf r.observable = none := by simp [Heap.ownerOf, e]
+    simp [centreOf, Heap.kindOf, e, ancOf, anc_owner_none this] at c
+
+/-- a registration is sound only if its observable has a centre -/
+theorem regOK_centre {ds} {h : Heap} (s : Struct ds h) {r : Reg} (ok : RegOK h r) : dispOf h r.observable = some r.centre := by
+  rw [disp_exact s]; exact ok.1
+
+theorem mem_foldl_addReg {h : Heap} {rs : List Reg} {r : Reg} (hr : r ∈ (rs.foldl (fun h r => h.addReg r) h).regs) :
+    r ∈ h.regs ∨ r ∈ rs := by
+  induction rs generalizing h with
+  | nil => exact Or.inl hr
+  | cons a rs ih =>
+    rw [List.foldl_cons] at hr
+    rcases ih hr with h1 | h1
+    · unfold Heap.addReg at h1
+      split at h1
+      · exact Or.inl h1
+      · simp only [List.mem_append, List.mem_singleton] at h1
+        rcases h1 with h1 | h1
+        · exact Or.inl h1
+        · right; simp [h1]
+    · right; simp [h1]
+
+theorem mem_foldl_names {c o x : Id} {names : List NName} {r : Reg} :
+    ∀ {h : Heap}, r ∈ (names.foldl (fun h nm => h.addReg ⟨c, o, x, nm⟩) h).regs →
+      r ∈ h.regs ∨ ∃ nm, nm ∈ names ∧ r = ⟨c, o, x, nm⟩ := by
+  induction names with
+  | nil => intro h hr; exact Or.inl hr
+  | cons a ns ih =>
+    intro h hr
+    rw [List.foldl_cons] at hr
+    rcases ih hr with h1 | ⟨nm, h1, h2⟩
+    · unfold Heap.addReg at h1
+      split at h1
+      · exact Or.inl h1
+      · simp only [List.mem_append, List.mem_singleton] at h1
+        rcases h1 with h1 | h1
+        · exact Or.inl h1
+        · right; exact ⟨a, by simp, h1⟩
+    · right; exact ⟨nm, by simp [h1], h2⟩
+
+theorem mem_observe {h : Heap} {x o : Id} {names : List NName} {r : Reg} (hr : r ∈ (observe h x o names).regs) :
+    r ∈ h.regs ∨ ∃ c nm, dispOf h x = some c ∧ nm ∈ names ∧ r = ⟨c, o, x, nm⟩ := by
+  unfold observe at hr
+  split at hr
+  · exact Or.inl hr
+  · rename_i c ec
+    rcases mem_foldl_names hr with h1 | ⟨nm, h1, h2⟩
+    · exact Or.inl h1
+    · right; exact ⟨c, nm, ec, h1, h2⟩
+
+theorem mem_unobserve {h : Heap} {x o : Id} {names : List NName} {r : Reg} (hr : r ∈ (unobserve h x o names).regs) :
+    r ∈ h.regs ∧ ∀ c, dispOf h x = some c → ¬ (r.centre = c ∧ r.observer = o ∧ r.observable = x ∧ r.name ∈ names) := by
+  unfold unobserve at hr
+  split at hr
+  · rename_i e; exact ⟨hr, fun c ec => by rw [e] at ec; cases ec⟩
+  · rename_i c e
+    simp only [List.mem_filter, decide_eq_true_eq] at hr
+    exact ⟨hr.1, fun c' ec => by rw [e] at ec; cases ec; exact hr.2⟩
+
+
+/-! ### Steps of the invariant (structure and registrations together) -/
+
+theorem wired_mono {ds ds'} {h : Heap} (w : WiredX ds h) (sub : ∀ d, d ∈ ds → d ∈ ds') : WiredX ds' h :=
+  ⟨struct_mono w.toStruct sub, w.regSound⟩
+
+theorem wired_undying {ds} {h : Heap} {d : Id} (w : WiredX (d :: ds) h)
+    (hd : h.alive d → ∀ x ∈ h.kidsOf d, h.ownerOf x = some d) : WiredX ds h :=
+  ⟨struct_undying w.toStruct hd, w.regSound⟩
+
+/-- same nodes; every registration is an old one or sound -/
+theorem wired_regs {ds} {h h' : Heap} (w : WiredX ds h) (hg : ∀ i, h'.get i = h.get i)
+    (hr : ∀ r ∈ h'.regs, r ∈ h.regs ∨ RegOK h r) : WiredX ds h' := by
+  refine ⟨struct_congr hg w.toStruct, fun r hm => ?_⟩
+  have ok : RegOK h r := by
+    rcases hr r hm with h1 | h1
+    · exact w.regSound r h1
+    · exact h1
+  exact regOK_transfer (fun i k e => by rw [kindOf_congr hg]; exact e) (ownerOf_congr hg _) (ancOf_congr hg _ _) ok
+
+theorem wired_kidsChange {ds} {h h' : Heap} (w : WiredX ds h) {p : Id} {np : Node} {f : List Id → List Id}
+    (ep : h.get p = some np)
+    (hg : ∀ i, h'.get i = if p = i then (h.get p).map (fun n => { n with kids := f n.kids }) else h.get i)
+    (hregs : h'.regs = h.regs)
+    (kk : ∀ y ∈ f np.kids, ∃ ny, h.get y = some ny ∧ allowed np.kind ny.kind = true)
+    (nd : (f np.kids).Nodup)
+    (hup : ∀ y, h.ownerOf y = some p → y ∈ f np.kids)
+    (hdn : p ∈ ds ∨ ∀ y ∈ f np.kids, y ∈ np.kids) : WiredX ds h' := by
+  obtain ⟨ho, hk, ha', _, _, _⟩ := kidsChange_owner ep hg
+  refine ⟨struct_kidsChange w.toStruct ep hg kk nd hup hdn, fun r hm => ?_⟩
+  rw [hregs] at hm
+  exact regOK_transfer (fun i k e => by rw [hk]; exact e) (ho _) (ha' _ _) (w.regSound r hm)
+
+theorem wired_addKid {ds} {h : Heap} (w : WiredX ds h) {p x : Id} {np nx : Node}
+    (ep : h.get p = some np) (ex : h.get x = some nx) (ha : allowed np.kind nx.kind = true)
+    (hn : x ∉ np.kids) (hd : p ∈ ds) : WiredX ds (h.addKid p x) := by
+  obtain ⟨ho, hk, ha', _, _, _⟩ := kidsChange_owner (f := fun ks => ks ++ [x]) ep (get_addKid h p x)
+  refine ⟨struct_addKid w.toStruct ep ex ha hn hd, fun r hm => ?_⟩
+  have : (h.addKid p x).regs = h.regs := by simp [Heap.addKid]
+  rw [this] at hm
+  exact regOK_transfer (fun i k e => by rw [hk]; exact e) (ho _) (ha' _ _) (w.regSound r hm)
+
+theorem wired_unlist {ds} {h : Heap} (w : WiredX ds h) {p x : Id} (hx : h.ownerOf x ≠ some p) :
+    WiredX ds (h.unlist p x) := by
+  refine ⟨struct_unlist w.toStruct hx, fun r hm => ?_⟩
+  have hregs : (h.unlist p x).regs = h.regs := by simp [Heap.unlist]
+  rw [hregs] at hm
+  cases ep : h.get p with
+  | none =>
+    have hg : ∀ i, (h.unlist p x).get i = h.get i := fun i => by
+      rw [get_unlist]; by_cases e : p = i
+      · subst e; simp [ep]
+      · simp [e]
+    exact regOK_transfer (fun i k e => by rw [kindOf_congr hg]; exact e) (ownerOf_congr hg _) (ancOf_congr hg _ _)
+      (w.regSound r hm)
+  | some np =>
+    obtain ⟨ho, hk, ha', _, _, _⟩ := kidsChange_owner (f := fun ks => ks.filter (· ≠ x)) ep (get_unlist h p x)
+    exact regOK_transfer (fun i k e => by rw [hk]; exact e) (ho _) (ha' _ _) (w.regSound r hm)
+
+theorem wired_replace {ds} {h h' : Heap} (w : WiredX ds h) {z : Id} {n n' : Node}
+    (ez : h.get z = some n) (hg : ∀ i, h'.get i = if z = i then some n' else h.get i)
+    (hregs : h'.regs = h.regs)
+    (hkind : n'.kind = n.kind) (hkids : n'.kids = n.kids)
+    (hz : ∀ i, h.ownerOf i ≠ some z)
+    (ok : NodeOK ds h z n')
+    (dz : z ∈ ds ∨ n.kids = [] ∨ (n'.kind ≠ .font ∧ owner n' = none))
+    (noreg : ∀ r ∈ h.regs, r.observable ≠ z) : WiredX ds h' := by
+  refine ⟨struct_replace w.toStruct ez hg hkind hkids hz ok dz, fun r hm => ?_⟩
+  rw [hregs] at hm
+  have hne : ∀ i, i ≠ z → h'.get i = h.get i := fun i hi => by rw [hg]; simp [Ne.symm hi]
+  have hzz : h'.get z = some n' := by rw [hg]; simp
+  have hk : ∀ i, h'.kindOf i = h.kindOf i := fun i => by
+    by_cases e : i = z
+    · subst e; simp [Heap.kindOf, hzz, ez, hkind]
+    · simp [Heap.kindOf, hne i e]
+  have hx := noreg r hm
+  exact regOK_transfer (fun i k e => by rw [hk]; exact e) (by simp [Heap.ownerOf, hne _ hx])
+    (anc_frame hne hz .font 4 _ hx) (w.regSound r hm)
+
+theorem wired_alloc {ds} {h : Heap} (w : WiredX ds h) (k : Kind) : WiredX ds (h.alloc (blank k)) := by
+  refine ⟨struct_alloc w.toStruct k, fun r hm => ?_⟩
+  have hm : r ∈ h.regs := hm
+  have ok := w.regSound r hm
+  obtain ⟨n, en⟩ := regOK_exists ok
+  have ez : h.get h.next = none := get_next h
+  have hne : ∀ i, i ≠ h.next → (h.alloc (blank k)).get i = h.get i := fun i hi => by rw [get_alloc]; simp [hi]
+  have hx : r.observable ≠ h.next := fun e => by rw [e, ez] at en; cases en
+  refine regOK_transfer (fun i kk e => ?_) (by simp [Heap.ownerOf, hne _ hx])
+    (anc_frame hne (nobody_owned_by_missing w.toStruct ez) .font 4 _ hx) ok
+  obtain ⟨ni, ei, _⟩ := kindOf_some e
+  have : i ≠ h.next := fun e2 => by rw [e2, ez] at ei; cases ei
+  simp only [Heap.kindOf, hne i this]; exact e
 
 end Parents
 end DefconModel
